@@ -4,6 +4,7 @@ package e3
 
 import (
 	"net"
+	"runtime"
 	"sync"
 	"time"
 
@@ -96,6 +97,7 @@ func newWorld(x *vsched.Exec, full bool, maxRetrans uint8) *world {
 
 // cleanup runs outside the scheduler, after the execution has ended: only OS resources are released.
 func (w *world) cleanup() {
+	vsched.ExtProbe = nil
 	w.v.CloseConn()
 	if w.g != nil {
 		w.g.VCloseRaw()
@@ -110,6 +112,50 @@ func (w *world) peerIP(i int) string { return w.blk.IP(2 + i).String() }
 
 // send delivers a datagram from peer i to the event loop as the receiver goroutine would (a send on rcvCh).
 func (w *world) send(i int, b []byte) { w.v.InjectPacket(w.peers[i].Addr(), b) }
+
+// sendUDP sends a datagram from peer i to the UPF's real socket and returns once it has been DELIVERED: either the
+// receiver, blocked in its read, has returned with it, or the socket's receive queue has grown. (What the
+// receiver and the loop then do with it, and when, is the scheduler's choice.)
+func (w *world) sendUDP(i int, b []byte) bool {
+	addr := w.v.LocalAddr()
+	if addr == nil {
+		return false
+	}
+	blocked := vsched.ExternalThreads() > 0
+	q0 := netx.RxQueue(addr)
+	if _, err := w.peers[i].Conn.WriteToUDP(b, addr); err != nil {
+		return false
+	}
+	for n := 0; n < 200000; n++ {
+		if blocked {
+			if vsched.ExternalThreads() == 0 {
+				return true
+			}
+		} else if netx.RxQueue(addr) > q0 {
+			return true
+		}
+		if n > 1000 {
+			time.Sleep(50 * time.Microsecond)
+		} else {
+			runtime.Gosched()
+		}
+	}
+	return false
+}
+
+// repliesWait drains the peers' sockets until peer i has at least n messages or a second has passed (loopback
+// delivery can lag behind under load; a response that never comes costs that second).
+func (w *world) repliesWait(i, n int) [3][]*smf.Msg {
+	out := w.replies()
+	for t := 0; len(out[i]) < n && t < 200; t++ {
+		time.Sleep(5 * time.Millisecond)
+		more := w.replies()
+		for k := range out {
+			out[k] = append(out[k], more[k]...)
+		}
+	}
+	return out
+}
 
 func (w *world) nextSeq(i int) uint32 { s := w.seq[i]; w.seq[i]++; return s }
 
